@@ -29,12 +29,14 @@ Proof. induction ps; [reflexivity|]. cbn. assumption. Qed.
 Lemma data_setedge id ps : forallb is_data (map (fun kv => SetEdgeProperty id (fst kv) (snd kv)) ps) = true.
 Proof. induction ps; [reflexivity|]. cbn. assumption. Qed.
 
+Lemma sat_succ_below id : id < id_max -> sat_succ id = id + 1.
+Proof. intros H. unfold sat_succ. replace (id =? id_max) with false by (symmetry; apply Z.eqb_neq; lia). reflexivity. Qed.
 Lemma create_node_is_with_id s ls :
-  fst (st_create_node s ls (s_epoch s)) = st_create_node_with_id s (s_nn s) ls.
-Proof. unfold st_create_node, st_create_node_with_id. cbn [fst]. rewrite Z.leb_refl. reflexivity. Qed.
+  s_nn s < id_max -> fst (st_create_node s ls (s_epoch s)) = st_create_node_with_id s (s_nn s) ls.
+Proof. intros H. unfold st_create_node, st_create_node_with_id. cbn [fst]. rewrite Z.leb_refl, (sat_succ_below _ H). reflexivity. Qed.
 Lemma create_edge_is_with_id s a b ty :
-  fst (st_create_edge s a b ty (s_epoch s)) = st_create_edge_with_id s (s_ne s) a b ty.
-Proof. unfold st_create_edge, st_create_edge_with_id. cbn [fst]. rewrite Z.leb_refl. reflexivity. Qed.
+  s_ne s < id_max -> fst (st_create_edge s a b ty (s_epoch s)) = st_create_edge_with_id s (s_ne s) a b ty.
+Proof. intros H. unfold st_create_edge, st_create_edge_with_id. cbn [fst]. rewrite Z.leb_refl, (sat_succ_below _ H). reflexivity. Qed.
 
 Lemma st_delete_node_false s id : snd (st_delete_node s id) = false -> fst (st_delete_node s id) = s.
 Proof. unfold st_delete_node. destruct (aget _ _ _); [destruct (visible _ _ _)|]; cbn; intros; congruence. Qed.
@@ -66,18 +68,20 @@ Qed.
     records, and leaves the transaction manager alone *)
 Lemma op_effect_apply s t o s1 t1 rs res :
   op_effect s t o = (s1, t1, rs, res) ->
-  is_sess_op o = false -> (is_rm_op o && out_true res) = false ->
+  is_sess_op o = false -> (is_rm_op o && out_true res) = false -> Forall rec_ids_below rs ->
   s1 = apply_all s rs /\ forallb is_data rs = true /\ t1 = t.
 Proof.
-  intros E Hs Hr. destruct o; cbn [is_sess_op] in Hs; try discriminate; cbn [op_effect] in E.
+  intros E Hs Hr HB. destruct o; cbn [is_sess_op] in Hs; try discriminate; cbn [op_effect] in E.
   - (* create_node *) unfold st_create_node in E. injection E as <- <- <- <-.
+    inversion HB as [|? ? HB1 _]; subst. cbn in HB1.
     repeat split. cbn [apply_all fold_left apply_record].
-    rewrite <- create_node_is_with_id. reflexivity.
+    rewrite <- create_node_is_with_id by exact HB1. reflexivity.
   - (* create_node_with_props *) unfold st_create_node in E. injection E as <- <- <- <-.
+    inversion HB as [|? ? HB1 _]; subst. cbn in HB1.
     repeat split.
     + cbn [apply_all fold_left apply_record]. fold (apply_all (st_create_node_with_id s (s_nn s) labels)
         (map (fun kv => SetNodeProperty (s_nn s) (fst kv) (snd kv)) ps)).
-      rewrite set_props_node_apply, <- create_node_is_with_id. reflexivity.
+      rewrite set_props_node_apply, <- create_node_is_with_id by exact HB1. reflexivity.
     + cbn [forallb is_data andb]. apply data_setnode.
   - (* delete_node *)
     assert (C : exists s0 ers, (if node_visible s id then delete_edges s (incident_edges s id) else (s, [])) = (s0, ers)
@@ -101,12 +105,14 @@ Proof.
     destruct b; repeat split. + cbn. now rewrite D.
     + cbn. pose proof (st_remove_label_false s id l) as F. rewrite D in F. apply F. reflexivity.
   - (* create_edge *) unfold st_create_edge in E. injection E as <- <- <- <-.
-    repeat split. cbn [apply_all fold_left apply_record]. rewrite <- create_edge_is_with_id. reflexivity.
+    inversion HB as [|? ? HB1 _]; subst. cbn in HB1.
+    repeat split. cbn [apply_all fold_left apply_record]. rewrite <- create_edge_is_with_id by exact HB1. reflexivity.
   - (* create_edge_with_props *) unfold st_create_edge in E. injection E as <- <- <- <-.
+    inversion HB as [|? ? HB1 _]; subst. cbn in HB1.
     repeat split.
     + cbn [apply_all fold_left apply_record]. fold (apply_all (st_create_edge_with_id s (s_ne s) src dst ty)
         (map (fun kv => SetEdgeProperty (s_ne s) (fst kv) (snd kv)) ps)).
-      rewrite set_props_edge_apply, <- create_edge_is_with_id. reflexivity.
+      rewrite set_props_edge_apply, <- create_edge_is_with_id by exact HB1. reflexivity.
     + cbn [forallb is_data andb]. apply data_setedge.
   - (* delete_edge *) destruct (st_delete_edge s id) as [s' b] eqn:D. injection E as <- <- <- <-.
     destruct b; repeat split. + cbn. now rewrite D.
@@ -257,9 +263,11 @@ Section DbProofs.
   Qed.
 
   Lemma wopen_single d f log :
-    d_files d = [(0, f)] -> f_bytes f = frames log -> single (wopen d) log /\ w_disk (wopen d) = d.
+    Forall ok log ->
+    d_files d = [(0, f)] -> f_bytes f = frames log -> single (wopen crc d) log /\ w_disk (wopen crc d) = d.
   Proof.
-    intros Hf Hb. unfold wopen. rewrite Hf. cbn [max_seq fold_right fst]. rewrite Z.max_id, get_single.
+    intros Hok Hf Hb. unfold wopen. rewrite Hf. cbn [max_seq fold_right fst]. rewrite Z.max_id, get_single.
+    rewrite (cut_torn_frames crc enc dec crc_range f log Hok Hb), put_single.
     split; [exists f; cbn; auto|]. destruct d; cbn in *. subst. reflexivity.
   Qed.
 
@@ -333,36 +341,44 @@ Section DbProofs.
   Lemma single_seq w log : single w log -> w_seq w = 0.
   Proof. intros (f & _ & _ & H). exact H. Qed.
 
-  Lemma kclean_false k : kclean k = true -> k_cp k = false /\ k_rm k = false /\ k_sess k = false /\ k_rot k = false.
-  Proof. unfold kclean. destruct (k_cp k), (k_rm k), (k_sess k), (k_rot k); cbn; intros; try discriminate; auto. Qed.
+  Lemma kclean_false k : kclean k = true -> k_rm k = false /\ k_sess k = false /\ k_rot k = false.
+  Proof. unfold kclean. destruct (k_rm k), (k_sess k), (k_rot k); cbn; intros; try discriminate; auto. Qed.
 
   (** one operation *)
   Lemma db_step_inv cfg st log o st1 res dirty :
     Inv st log -> (dirty = false -> pend log = []) ->
     db_step cfg st o = (st1, res) ->
-    (is_cp_op o && dirty) = false -> (is_rm_op o && out_true res) = false -> is_sess_op o = false ->
+    (is_rm_op o && out_true res) = false -> is_sess_op o = false ->
     (w_seq (db_w st1) =? w_seq (db_w st)) = true ->
     Forall ok (step_logs st o) ->
     exists log1, Inv st1 log1
       /\ ((if is_cp_op o then false else dirty || logs_something (db_store st) (db_tm st) o) = false -> pend log1 = []).
   Proof.
-    intros I Hdirty E Hcp Hrm Hse Hseq Hok. apply Z.eqb_eq in Hseq.
+    intros I Hdirty E Hrm Hse Hseq Hok. apply Z.eqb_eq in Hseq.
     pose proof I as (S & M & ES & OK). pose proof (single_seq _ _ S) as S0. rewrite S0 in Hseq.
     destruct (is_wal_op o) eqn:W.
     - destruct o; try discriminate W; cbn [Db.db_step] in E.
-      + (* checkpoint *)
+      + (* checkpoint: the commit marker first, so whatever was pending is published *)
         cbn [Classes.step_logs] in Hok.
         destruct (last_or_begin (db_tm st)) as [tx t1]. injection E as <- <-. cbn [db_w db_store fst] in *.
         rewrite wsync_seq in Hseq.
-        destruct (wcheckpoint_single cfg (db_w st) log tx _ S Hseq) as [S1 M1].
+        set (w1 := wlog cfg (db_w st) (TxCommit tx)) in *.
+        assert (H1 : w_seq w1 = 0).
+        { pose proof (wlog_seq_mono cfg (db_w st) (TxCommit tx)). fold w1 in H.
+          pose proof (wlog_seq_mono cfg w1 (Checkpoint tx)). rewrite wcheckpoint_seq in Hseq. lia. }
+        destruct (wlog_single cfg (db_w st) log (TxCommit tx) S H1) as [S0' _]. fold w1 in S0'.
+        destruct (wcheckpoint_single cfg w1 _ tx _ S0' Hseq) as [S1 M1].
         destruct (wsync_single _ _ S1) as [S2 M2].
-        cbn in Hcp. destruct dirty; [discriminate|]. specialize (Hdirty eq_refl).
-        exists (log ++ [Checkpoint tx]). unfold Inv, pend in *. cbn [db_w db_store].
-        rewrite sm_run_snoc. destruct (sm_run ([], []) log) as [p c]. cbn [fst snd] in *. subst p.
-        cbn [sm_step fst snd]. repeat split; try assumption.
-        all: try (rewrite ES, datas_app; cbn; rewrite !app_nil_r; reflexivity).
-        all: try (rewrite M2; exact M1).
-        apply Forall_app. split; assumption.
+        exists ((log ++ [TxCommit tx]) ++ [Checkpoint tx]).
+        assert (Pd : forallb is_data (pend log) = true) by (apply sm_run_pending_data; reflexivity).
+        assert (SM : sm_run ([], []) ((log ++ [TxCommit tx]) ++ [Checkpoint tx])
+                     = ([], (snd (sm_run ([], []) log) ++ pend log ++ [TxCommit tx]) ++ [Checkpoint tx])).
+        { unfold pend. rewrite !sm_run_snoc. destruct (sm_run ([], []) log) as [p c]. reflexivity. }
+        split; [|intros _; unfold pend; rewrite SM; reflexivity].
+        unfold Inv. cbn [db_w db_store]. split; [exact S2|]. split; [rewrite M2; exact M1|]. split.
+        * assert (PN : pend ((log ++ [TxCommit tx]) ++ [Checkpoint tx]) = []) by (unfold pend; rewrite SM; reflexivity).
+          rewrite PN, SM. cbn [fst snd]. rewrite ES, !datas_app, (datas_all _ Pd). cbn. rewrite !app_nil_r. reflexivity.
+        * rewrite <- app_assoc. apply Forall_app. split; assumption.
       + (* rotate *) injection E as <- <-. cbn [db_w] in Hseq. rewrite wrotate_seq in Hseq. lia.
       + (* sync *) injection E as <- <-. cbn [db_w db_store] in *.
         destruct (wsync_single _ _ S) as [S1 M1]. exists log. unfold Inv. cbn [db_w db_store].
@@ -372,7 +388,11 @@ Section DbProofs.
     - rewrite (db_step_generic cfg st o W) in E.
       destruct (op_effect (db_store st) (db_tm st) o) as [[[s1 t1] rs] res'] eqn:OE.
       injection E as <- <-. cbn [db_w db_store] in *.
-      destruct (op_effect_apply _ _ _ _ _ _ _ OE Hse Hrm) as (A1 & A2 & A3).
+      assert (Hok0 : Forall ok rs).
+      { assert (SL : step_logs st o = rs) by (destruct o; try discriminate W; cbn [Classes.step_logs]; rewrite OE; reflexivity).
+        rewrite <- SL. exact Hok. }
+      assert (HB : Forall rec_ids_below rs) by (eapply Forall_impl; [|exact Hok0]; intros r (_ & _ & B); exact B).
+      destruct (op_effect_apply _ _ _ _ _ _ _ OE Hse Hrm HB) as (A1 & A2 & A3).
       destruct (wlog_all_single cfg rs (db_w st) log S Hseq) as [S1 M1].
       assert (M1' : meta0 (d_meta (w_disk (wlog_all cfg (db_w st) rs)))) by (rewrite M1; exact M).
       assert (Hok' : Forall ok rs).
@@ -407,18 +427,18 @@ Section DbProofs.
       assert (Hmono : forall st' d' a', kclean (fst (scan cfg st' d' r a')) = true -> kclean a' = true).
       { clear. induction r as [|o' r' IH']; intros st' d' a' H; [exact H|].
         cbn [Classes.scan] in H. destruct (db_step cfg st' o') as [st'' res'']. apply IH' in H.
-        apply kclean_false in H as (H1 & H2 & H3 & H4). cbn [k_cp k_rm k_sess k_rot] in *.
-        apply orb_false_elim in H1 as [H1 _], H2 as [H2 _], H3 as [H3 _], H4 as [H4 _].
-        unfold kclean. rewrite H1, H2, H3, H4. reflexivity. }
+        apply kclean_false in H as (H2 & H3 & H4). cbn [k_cp k_rm k_sess k_rot] in *.
+        apply orb_false_elim in H2 as [H2 _], H3 as [H3 _], H4 as [H4 _].
+        unfold kclean. rewrite H2, H3, H4. reflexivity. }
       pose proof (Hmono _ _ _ Hk) as Hk1.
-      apply kclean_false in Hk1 as (H1 & H2 & H3 & H4). unfold acc1 in *. cbn [k_cp k_rm k_sess k_rot] in *.
-      apply orb_false_elim in H1 as [A1 B1], H2 as [A2 B2], H3 as [A3 B3], H4 as [A4 B4].
+      apply kclean_false in Hk1 as (H2 & H3 & H4). unfold acc1 in *. cbn [k_cp k_rm k_sess k_rot] in *.
+      apply orb_false_elim in H2 as [A2 B2], H3 as [A3 B3], H4 as [A4 B4].
       apply negb_false_iff in B4.
-      destruct (db_step_inv cfg st log o st1 res dirty I Hd E B1 B2 B3 B4 Hok1) as (log1 & I1 & P1).
+      destruct (db_step_inv cfg st log o st1 res dirty I Hd E B2 B3 B4 Hok1) as (log1 & I1 & P1).
       destruct (IH st1 dirty1 (mkK (k_cp acc || is_cp_op o && dirty) (k_rm acc || is_rm_op o && out_true res)
                                    (k_sess acc || is_sess_op o) (k_rot acc || negb (w_seq (db_w st1) =? w_seq (db_w st))))
                    log1 I1 P1 Hk Hok2) as [_ R].
-      split; [|exact R]. unfold kclean. rewrite A1, A2, A3, A4. reflexivity.
+      split; [|exact R]. unfold kclean. rewrite A2, A3, A4. reflexivity.
   Qed.
 
   Lemma wlog_cp_seq_mono cfg w tx ep : w_seq w <= w_seq (wcheckpoint cfg w tx ep).
@@ -452,7 +472,7 @@ Section DbProofs.
     assert (SM : sm_run ([], []) log2 = ([], (snd (sm_run ([], []) log) ++ pend log ++ [TxCommit tx]) ++ [Checkpoint tx])).
     { unfold log2, pend. rewrite !sm_run_snoc. destruct (sm_run ([], []) log) as [p c]. reflexivity. }
     unfold Db.db_open. rewrite R. eexists. exists log2. split; [reflexivity|].
-    destruct (wopen_single d f log2 Hf Hb) as [So Wd].
+    destruct (wopen_single d f log2 OK2 Hf Hb) as [So Wd].
     assert (Pd : forallb is_data (pend log) = true) by (apply sm_run_pending_data; reflexivity).
     assert (ST : apply_all empty_store (snd (sm_run ([], []) log2)) = db_store st).
     { rewrite SM. cbn [snd]. rewrite apply_all_datas, !datas_app, (datas_all _ Pd). cbn. rewrite !app_nil_r. symmetry. exact ES. }
@@ -484,9 +504,9 @@ Section DbProofs.
     apply Forall_app in Hok as [Hok1 Hok2]. apply Forall_app in Hok2 as [Hok2 Hok3].
     assert (Kall : kclean fl = true /\ w_seq (db_w (db_close cfg st1)) = w_seq (db_w st1)).
     { destruct (db_open (end_disk cfg st1 EClose)); cbn [forallb] in Hk; apply andb_prop in Hk as [Hk1 _];
-        apply kclean_false in Hk1 as (K1 & K2 & K3 & K4); cbn [k_cp k_rm k_sess k_rot] in *;
+        apply kclean_false in Hk1 as (K2 & K3 & K4); cbn [k_cp k_rm k_sess k_rot] in *;
         apply orb_false_elim in K4 as [K4 K5]; apply negb_false_iff, Z.eqb_eq in K5;
-        (split; [unfold kclean; rewrite K1, K2, K3, K4; reflexivity|exact K5]). }
+        (split; [unfold kclean; rewrite K2, K3, K4; reflexivity|exact K5]). }
     destruct Kall as [Kfl K5].
     destruct (scan_inv cfg os st false k0 log I (fun _ => P)) as [_ (log1 & I1)]; [rewrite SC; exact Kfl|exact Hok1|].
     rewrite SC in I1. cbn [snd] in I1.
@@ -532,10 +552,10 @@ Lemma Forall_keys_weaken {V} (P Q : Z -> Prop) (l : list (Z * V)) :
   (forall k, P k -> Q k) -> Forall (fun kv => P (fst kv)) l -> Forall (fun kv => Q (fst kv)) l.
 Proof. intros H F. eapply Forall_impl; [|exact F]. intros a. apply H. Qed.
 
-Lemma apply_record_fresh s r : ids_fresh s -> ids_fresh (apply_record s r).
+Lemma apply_record_fresh s r : rec_ids_below r -> ids_fresh s -> ids_fresh (apply_record s r).
 Proof.
-  intros [Hn He]. destruct r; cbn [apply_record]; try (split; assumption).
-  - (* CreateNode *) unfold st_create_node_with_id, ids_fresh. cbn [s_nodes s_nn s_edges s_ne]. split; [|exact He].
+  intros HB [Hn He]. destruct r; cbn [apply_record]; try (split; assumption).
+  - (* CreateNode *) cbn in HB. unfold st_create_node_with_id, ids_fresh. rewrite (sat_succ_below _ HB). cbn [s_nodes s_nn s_edges s_ne]. split; [|exact He].
     destruct (s_nn s <=? id) eqn:E.
     + apply Z.leb_le in E. apply (aset_keys (fun k => k < id + 1)); [|lia].
       apply (Forall_keys_weaken (fun k => k < s_nn s) (fun k => k < id + 1)); [intros; lia|exact Hn].
@@ -544,7 +564,7 @@ Proof.
     destruct (visible _ _ _); [|split; assumption]. cbn [fst]. unfold ids_fresh. cbn [s_nodes s_nn s_edges s_ne].
     split; [|exact He]. apply (aset_keys (fun k => k < s_nn s)); [exact Hn|].
     exact (aget_some_key (fun k => k < s_nn s) id n _ Hn G).
-  - (* CreateEdge *) unfold st_create_edge_with_id, ids_fresh. cbn [s_nodes s_nn s_edges s_ne]. split; [exact Hn|].
+  - (* CreateEdge *) cbn in HB. unfold st_create_edge_with_id, ids_fresh. rewrite (sat_succ_below _ HB). cbn [s_nodes s_nn s_edges s_ne]. split; [exact Hn|].
     destruct (s_ne s <=? id) eqn:E.
     + apply Z.leb_le in E. apply (aset_keys (fun k => k < id + 1)); [|lia].
       apply (Forall_keys_weaken (fun k => k < s_ne s) (fun k => k < id + 1)); [intros; lia|exact He].
@@ -565,18 +585,23 @@ Proof.
     exact (aget_some_key (fun k => k < s_nn s) id n _ Hn G).
 Qed.
 
-Lemma apply_all_fresh rs : forall s, ids_fresh s -> ids_fresh (apply_all s rs).
-Proof. induction rs as [|r rs IH]; intros s H; [exact H|]. cbn. apply IH, apply_record_fresh, H. Qed.
+Lemma apply_all_fresh rs : forall s, Forall rec_ids_below rs -> ids_fresh s -> ids_fresh (apply_all s rs).
+Proof.
+  induction rs as [|r rs IH]; intros s HB H; [exact H|]. inversion HB; subst. cbn. apply IH; [assumption|].
+  apply apply_record_fresh; assumption.
+Qed.
 
 Lemma empty_fresh : ids_fresh empty_store.
 Proof. split; constructor. Qed.
 
-(** whatever directory is opened (any bytes, any metadata): if the open succeeds, the id
-    counters of the new store lie above every id the replay created *)
-Lemma reopen_ids_fresh_l crc dec d st : db_open crc dec d = ROk st -> ids_fresh (db_store st).
+(** whatever directory is opened (any bytes, any metadata): if the open succeeds and no recovered
+    record creates the identifier u64::MAX, the id counters of the new store lie above every id
+    the replay created *)
+Lemma reopen_ids_fresh_l crc dec d rs st :
+  recover crc dec d = ROk rs -> Forall rec_ids_below rs -> db_open crc dec d = ROk st -> ids_fresh (db_store st).
 Proof.
-  unfold db_open. destruct (recover crc dec d); [|discriminate]. intros H. injection H as <-.
-  cbn [db_store]. apply apply_all_fresh, empty_fresh.
+  unfold db_open. intros R HB. rewrite R. intros H. injection H as <-.
+  cbn [db_store]. apply apply_all_fresh; [exact HB|apply empty_fresh].
 Qed.
 
 Lemma aget_above {V} (l : list (Z * V)) k : Forall (fun kv => fst kv < k) l -> aget Z.eqb k l = None.
@@ -585,8 +610,8 @@ Proof.
   destruct (k' =? k) eqn:E; [apply Z.eqb_eq in E; lia|auto].
 Qed.
 (** the next node / edge identifier names nothing that exists *)
-Lemma reopen_new_ids_l crc dec d st :
-  db_open crc dec d = ROk st ->
+Lemma reopen_new_ids_l crc dec d rs st :
+  recover crc dec d = ROk rs -> Forall rec_ids_below rs -> db_open crc dec d = ROk st ->
   aget Z.eqb (snd (st_create_node (db_store st) [] 0)) (s_nodes (db_store st)) = None
   /\ aget Z.eqb (snd (st_create_edge (db_store st) 0 0 [] 0)) (s_edges (db_store st)) = None.
-Proof. intros H. destruct (reopen_ids_fresh_l _ _ _ _ H) as [A B]. split; cbn; apply aget_above; assumption. Qed.
+Proof. intros R HB H. destruct (reopen_ids_fresh_l _ _ _ _ _ R HB H) as [A B]. split; cbn; apply aget_above; assumption. Qed.
